@@ -89,11 +89,17 @@ int vf_get_nwarn(void) { return vf_nwarn; }
 static char vf_calls[8192]; static int vf_ncalls = 0;
 void vf_log_call(const char* name) { vf_ncalls++; if (strlen(vf_calls) + strlen(name) + 2 < sizeof(vf_calls)) { strcat(vf_calls, name); strcat(vf_calls, ";"); } }
 const char* vf_get_calls(void) { return vf_calls; }
+static void (*vf_sched_hook)(void) = 0;
+void vf_set_sched_hook(void (*h)(void)) { vf_sched_hook = h; }
+unsigned long vf_atomic_add_hook(unsigned long* p, unsigned long v) {
+  if (vf_sched_hook) { void (*h)(void) = vf_sched_hook; vf_sched_hook = 0; h(); }
+  return __atomic_fetch_add(p, v, __ATOMIC_SEQ_CST);
+}
 const char* vf_get_lastwarn(void) { return vf_lastwarn; }
 '''
 
 
-def native_lib(primary, support=(), flags=(), extra_c='', name=None, expose_static=True, sanitize=False, redirect=()):
+def native_lib(primary, support=(), flags=(), extra_c='', name=None, expose_static=True, sanitize=False, redirect=(), hook_atomics=False):
     """Build a shared library from real TUs for concrete replay / translator validation.
 
     primary: TUs whose static functions are made external (by rewriting `define internal` in their own IR).
@@ -106,7 +112,7 @@ def native_lib(primary, support=(), flags=(), extra_c='', name=None, expose_stat
     cflags = ['-O0', '-fPIC', '-g0', '-Wno-everything', '-ffp-contract=off'] + (['-fsanitize=address'] if sanitize else [])
     for tu in primary + support:
         keys.append(preprocessed_hash(tu, list(flags)))
-    h = hashlib.sha256(('|'.join(keys) + extra_c + repr(flags) + repr(primary) + repr(sanitize) + repr(sorted(redirect)) + 'v3' + STUB_PRELUDE).encode()).hexdigest()[:24]
+    h = hashlib.sha256(('|'.join(keys) + extra_c + repr(flags) + repr(primary) + repr(sanitize) + repr(sorted(redirect)) + repr(hook_atomics) + 'v3' + STUB_PRELUDE).encode()).hexdigest()[:24]
     so = os.path.join(WORK, 'lib_%s_%s.so' % (name or 'native', h))
     if os.path.exists(so):
         return so
@@ -120,6 +126,10 @@ def native_lib(primary, support=(), flags=(), extra_c='', name=None, expose_stat
             if expose_static:
                 txt = re.sub(r'^define internal ', 'define ', txt, flags=re.M)
             txt = redirect_calls(txt, redirect)
+            if hook_atomics:
+                # controlled-scheduler replay: every 64-bit atomic fetch-add goes through a hook that may run another thread's code first
+                txt, nh = re.subn(r'(%[\w.]+) = atomicrmw add i64\* (%[\w.]+), i64 ([^ ]+) \w+(, align \d+)?', r'\1 = call i64 @vf_atomic_add_hook(i64* \2, i64 \3)', txt)
+                if nh: txt += '\ndeclare i64 @vf_atomic_add_hook(i64*, i64)\n'
             open(ll, 'w').write(txt)
             o = ll + '.o'
             _run([CLANG, '-c'] + cflags + [ll, '-o', o])
